@@ -90,6 +90,27 @@ func (g *G) c20Rewritten() string {
 func (g *G) c20Marked() string {
 	tag := g.pick("mtag", "div", "section", "ul", "p", "div")
 	var inner string
+	// a marked subtree that adds no content words, only something visible (an image, a video, an
+	// embed, a data table or link-dense text that is not classified as content)
+	if g.chance(25, "mwordless") {
+		switch g.pick("mwl", "img", "img", "video", "youtube", "dtable", "links") {
+		case "img":
+			inner = `<img src="` + g.url("img") + `" width="800" height="600">`
+		case "video":
+			inner = `<video src="` + g.url("v") + `" poster="` + g.url("img") + `"></video>`
+		case "youtube":
+			inner = `<iframe src="http://www.youtube.com/embed/` + g.tokp("yt") + `"></iframe>`
+		case "dtable":
+			inner = g.dataTable()
+		default:
+			inner = "<ul>"
+			for i := g.intn(2, 5, "mlk"); i > 0; i-- {
+				inner += `<li><a href="/x/` + g.tokp("l") + `">` + g.words(2) + `</a></li>`
+			}
+			inner += "</ul>"
+		}
+		return c20SubOpen + "<div" + c20MarkOpen + g.c20Marker() + c20MarkClose + ">" + inner + "</div>\n" + c20SubClose
+	}
 	words := g.intn(50, 300, "mwords")
 	switch tag {
 	case "p":
